@@ -38,7 +38,8 @@ def extract_printers(ctx, classes):
         from ..dte import inline_helpers
         tp = Table(prog, f, inline=inline_helpers(
             prog, modules={CHECKS}, exclude={CHECKS + '._check'}),
-            handler_paths=False, quantifiers=False, max_depth=4)
+            handler_paths=False, quantifiers=False, max_depth=4,
+            self_cls=q)
         outs = [p for p in tp.paths if p.outcome.kind == 'return'
                 and p.outcome.expr is not None]
         if len(outs) != 1 or len(tp.paths) != 1:
